@@ -14,20 +14,36 @@ import (
 	"time"
 
 	"github.com/segmentio/kafka-go/protocol"
+	"github.com/segmentio/kafka-go/protocol/addoffsetstotxn"
+	"github.com/segmentio/kafka-go/protocol/addpartitionstotxn"
+	"github.com/segmentio/kafka-go/protocol/alterclientquotas"
+	"github.com/segmentio/kafka-go/protocol/alterconfigs"
+	"github.com/segmentio/kafka-go/protocol/alterpartitionreassignments"
+	"github.com/segmentio/kafka-go/protocol/alteruserscramcredentials"
 	"github.com/segmentio/kafka-go/protocol/apiversions"
+	"github.com/segmentio/kafka-go/protocol/createacls"
 	"github.com/segmentio/kafka-go/protocol/createpartitions"
 	"github.com/segmentio/kafka-go/protocol/createtopics"
+	"github.com/segmentio/kafka-go/protocol/deleteacls"
 	"github.com/segmentio/kafka-go/protocol/deletegroups"
 	"github.com/segmentio/kafka-go/protocol/deletetopics"
+	"github.com/segmentio/kafka-go/protocol/describeacls"
+	"github.com/segmentio/kafka-go/protocol/describeclientquotas"
+	"github.com/segmentio/kafka-go/protocol/describeconfigs"
 	"github.com/segmentio/kafka-go/protocol/describegroups"
+	"github.com/segmentio/kafka-go/protocol/describeuserscramcredentials"
+	"github.com/segmentio/kafka-go/protocol/electleaders"
+	"github.com/segmentio/kafka-go/protocol/endtxn"
 	"github.com/segmentio/kafka-go/protocol/fetch"
 	"github.com/segmentio/kafka-go/protocol/findcoordinator"
 	"github.com/segmentio/kafka-go/protocol/heartbeat"
+	"github.com/segmentio/kafka-go/protocol/incrementalalterconfigs"
 	"github.com/segmentio/kafka-go/protocol/initproducerid"
 	"github.com/segmentio/kafka-go/protocol/joingroup"
 	"github.com/segmentio/kafka-go/protocol/leavegroup"
 	"github.com/segmentio/kafka-go/protocol/listgroups"
 	"github.com/segmentio/kafka-go/protocol/listoffsets"
+	"github.com/segmentio/kafka-go/protocol/listpartitionreassignments"
 	"github.com/segmentio/kafka-go/protocol/metadata"
 	"github.com/segmentio/kafka-go/protocol/offsetcommit"
 	"github.com/segmentio/kafka-go/protocol/offsetdelete"
@@ -36,6 +52,7 @@ import (
 	"github.com/segmentio/kafka-go/protocol/saslauthenticate"
 	"github.com/segmentio/kafka-go/protocol/saslhandshake"
 	"github.com/segmentio/kafka-go/protocol/syncgroup"
+	"github.com/segmentio/kafka-go/protocol/txnoffsetcommit"
 )
 
 type kgoPair struct{ req, res protocol.Message }
@@ -63,6 +80,24 @@ var kgoAPIs = []kgoPair{
 	{&createpartitions.Request{}, &createpartitions.Response{}},
 	{&deletegroups.Request{}, &deletegroups.Response{}},
 	{&offsetdelete.Request{}, &offsetdelete.Response{}},
+	// schemas_more.go
+	{&addpartitionstotxn.Request{}, &addpartitionstotxn.Response{}},
+	{&addoffsetstotxn.Request{}, &addoffsetstotxn.Response{}},
+	{&endtxn.Request{}, &endtxn.Response{}},
+	{&txnoffsetcommit.Request{}, &txnoffsetcommit.Response{}},
+	{&describeacls.Request{}, &describeacls.Response{}},
+	{&createacls.Request{}, &createacls.Response{}},
+	{&deleteacls.Request{}, &deleteacls.Response{}},
+	{&describeconfigs.Request{}, &describeconfigs.Response{}},
+	{&alterconfigs.Request{}, &alterconfigs.Response{}},
+	{&electleaders.Request{}, &electleaders.Response{}},
+	{&incrementalalterconfigs.Request{}, &incrementalalterconfigs.Response{}},
+	{&alterpartitionreassignments.Request{}, &alterpartitionreassignments.Response{}},
+	{&listpartitionreassignments.Request{}, &listpartitionreassignments.Response{}},
+	{&describeclientquotas.Request{}, &describeclientquotas.Response{}},
+	{&alterclientquotas.Request{}, &alterclientquotas.Response{}},
+	{&describeuserscramcredentials.Request{}, &describeuserscramcredentials.Response{}},
+	{&alteruserscramcredentials.Request{}, &alteruserscramcredentials.Response{}},
 }
 
 var recordSetType = reflect.TypeOf(protocol.RecordSet{})
@@ -116,6 +151,8 @@ func fillRandom(r *rand.Rand, v reflect.Value, recVersion int8) {
 		v.SetInt(genInt(r, -1<<31, 1<<31-1))
 	case reflect.Int64:
 		v.SetInt(genInt(r, -1<<63, 1<<63-1))
+	case reflect.Float64:
+		v.SetFloat(genFloat(r))
 	case reflect.String:
 		v.SetString(genString(r, genOpts{}))
 	case reflect.Slice:
@@ -298,6 +335,9 @@ func classify(api *API, ver int16, dir string, err error) string {
 	if i := strings.Index(msg, " at offset"); i >= 0 {
 		msg = msg[:i]
 	}
+	if i := strings.Index(msg, " (offset"); i >= 0 {
+		msg = msg[:i]
+	}
 	if i := strings.Index(msg, " in version"); i >= 0 {
 		msg = msg[:i]
 	}
@@ -307,12 +347,13 @@ func classify(api *API, ver int16, dir string, err error) string {
 // knownForward lists the disagreements found by TestCrossKafkaGoForward; each
 // is triaged in DISAGREEMENTS.md. Key -> versions affected.
 var knownForward = map[string]string{
-	// DISAGREEMENTS.md #1
-	"Metadata request: topics: null marker for non-nullable array": "v0",
-	// DISAGREEMENTS.md #2
-	"Metadata request: topics.name: null marker for non-nullable string": "v0-v8",
-	// DISAGREEMENTS.md #3
-	"OffsetFetch request: topics: null marker for non-nullable array": "v0-v1",
+	// (DISAGREEMENTS.md #1, #2, #3 - null topic arrays in Metadata v0 and
+	// OffsetFetch v0-v1 requests, "" written as a null array element - and #10
+	// - the same for DescribeConfigs configuration_keys - were repaired in
+	// kafka-go; they must not occur any more, which this test enforces because
+	// every finding that is not listed here is an error.)
+	// DISAGREEMENTS.md #9 (the filter is wrapped in a struct with its own tag buffer)
+	"DescribeAcls request: 1 trailing bytes after the last field": "v2-v3",
 }
 
 func TestCrossKafkaGoForward(t *testing.T) {
